@@ -6,7 +6,7 @@ import itertools
 import numpy as np
 
 from .. import env, rec
-from ..core import Violation, require, must_return
+from ..core import Violation, require, must_return, as_int_kind
 
 env.import_phylib()
 from phylib.io.array import chunk_bounds, excerpts, get_excerpts, data_chunk  # noqa: E402
@@ -120,7 +120,9 @@ def drivers(tier):
 def _check_cb(case):
     n, cs, ov = case['n'], case['cs'], case['ov']
     data = np.arange(n)
-    chunks = must_return('chunk_bounds', lambda: list(chunk_bounds(n, cs, overlap=ov)))
+    kk = n + 3 * cs + 5 * ov
+    chunks = must_return('chunk_bounds', lambda: list(chunk_bounds(
+        as_int_kind(n, kk), as_int_kind(cs, kk + 1), overlap=as_int_kind(ov, kk + 2))))
     kept_parts = []
     for ch in chunks:
         require(isinstance(ch, tuple) and len(ch) == 4, 'chunk is not a 4-tuple', key='cb-tuple',
@@ -152,7 +154,10 @@ def _check_ex(case):
             require(b - a <= es, 'excerpt longer than requested', key='ex-size', observed=exs)
             require(a >= prev, 'excerpts overlap or decrease', key='ex-disjoint', observed=exs)
             prev = b
-    out = must_return('get_excerpts', get_excerpts, data, n_excerpts=ne, excerpt_size=es)
+    # counts and sizes are Python ints or NumPy integers of any width
+    kk = n + 3 * ne + 5 * es
+    out = must_return('get_excerpts', get_excerpts, data, n_excerpts=as_int_kind(ne, kk),
+                      excerpt_size=as_int_kind(es, kk + 3))
     if n < ne * es:
         require(np.array_equal(out, data), 'short data not returned whole', key='ex-short',
                 observed=out, expected=data)
